@@ -152,3 +152,25 @@ Proof.
   - apply lookup_fd_none_notin. apply lookup_fd_none_notin in E. intros X. apply E.
     eapply Permutation_in; [|exact X]. apply Permutation_map. exact Hp.
 Qed.
+
+Lemma upd_nth_twice {A} (n : nat) (x y : A) l : upd_nth n x (upd_nth n y l) = upd_nth n x l.
+Proof. revert n. induction l as [|a l IH]; intros [|n]; simpl; auto. f_equal. apply IH. Qed.
+
+Lemma upd_nth_app_last {A} (l : list A) x y : upd_nth (length l) x (l ++ [y]) = l ++ [x].
+Proof. induction l as [|a l IH]; simpl; auto. f_equal. exact IH. Qed.
+
+Lemma nth_error_snoc {A} (l : list A) x j y :
+  nth_error (l ++ [x]) j = Some y -> (j < length l /\ nth_error l j = Some y) \/ (j = length l /\ y = x).
+Proof.
+  intros H. destruct (lt_dec j (length l)).
+  - left. rewrite nth_error_app1 in H by assumption. auto.
+  - right. rewrite nth_error_app2 in H by lia. destruct (j - length l) as [|m] eqn:E.
+    + simpl in H. inversion H. split; [lia | reflexivity].
+    + simpl in H. destruct m; discriminate.
+Qed.
+
+Lemma nth_error_snoc_last {A} (l : list A) x : nth_error (l ++ [x]) (length l) = Some x.
+Proof. rewrite nth_error_app2 by lia. rewrite Nat.sub_diag. reflexivity. Qed.
+
+Lemma nth_error_lt {A} (l : list A) j y : nth_error l j = Some y -> j < length l.
+Proof. intros H. apply nth_error_Some. congruence. Qed.
